@@ -273,6 +273,51 @@ for g in GROUPS:
     mk()
 
 
+# ---- the segments of the listed operators that are NOT under a hand-written backward (Jl_inv(Log X) p of Jinvp, and the
+# LieTensor glue around every Function): reverse-mode autograd differentiates them op by op (trusted), which gives the true Jacobian
+# iff no value on the way is cut out of the graph (.detach() / .data).  Contract: no entry of the result is computed from a detached
+# value that depends on the input.  Inputs away from the zero rotation (the property's domain for Jinvp).
+GEN = ('generic',)
+for g in GROUPS:
+    def mk(g=g):
+        a = S.ALG[g]
+        @obligation(f'C04.{g}.Jinvp.plain_autograd_segment', functions=[f'{OPS}:{a}_Jl_inv', f'{LT}:{g}Type.Jinvp'] +
+                    ([f'{OPS}:calcQ', f'{OPS}:so3_Jl_inv'] if g == 'SE3' else []), max_paths=32, timeout=300)
+        def seg(env):
+            op = env.load(OPS); pp = env.load('pypose'); T = env.T
+            dof = S.DOF[g]
+            x = alg_elem(env, g, 'x', regimes=GEN); p = env.vec('p', dof, regimes=GEN)
+            Jl_inv = getattr(op, a + '_Jl_inv')
+            env.no_graph_cut('Jl_inv(x) @ p keeps its full dependence on x', lambda z: (Jl_inv(z) @ p.unsqueeze(-1)).squeeze(-1), x)
+            env.no_graph_cut('Jl_inv(x) @ p keeps its full dependence on p', lambda q: (Jl_inv(x) @ q.unsqueeze(-1)).squeeze(-1), p)
+
+        @obligation(f'C04.{g}.api_glue.no_graph_cut', functions=[f'{LT}:{g}Type.*', f'{LT}:LieTensor.*', f'{LT}:{a}Type.*'], max_paths=32, timeout=300,
+                    first_path_only=True, tol=1e-4,
+                    note='value-independent clause: the glue of lietensor.py branches on types and shapes only; one feasible path')
+        def glue(env):
+            op = env.load(OPS); pp = env.load('pypose'); T = env.T
+            dof = S.DOF[g]
+            X = group_elem(env, g, 'X', qregimes=GEN); Y = group_elem(env, g, 'Y', qregimes=GEN)
+            xa = alg_elem(env, g, 'a', regimes=GEN); pt = env.vec('p', 3, regimes=GEN); h = env.vec('h', 4, regimes=GEN); pa = env.vec('q', dof, regimes=GEN)
+            L = lambda Z: lie(pp, g, Z)
+            A_ = lambda z: alg(pp, g, z)
+            progs = {        # every program ends in an algebra / point / matrix value (group-valued results act on a point) (C04 gradient convention for group-valued results)
+                'Log': lambda Z: raw(L(Z).Log()), 'Inv': lambda Z: L(Z).Inv().Act(pt), 'matrix': lambda Z: L(Z).matrix(),
+                'Mul (left operand)': lambda Z: (L(Z) @ L(Y)).Act(pt), 'Mul (right operand)': lambda Z: (L(Y) @ L(Z)).Act(pt),
+                'Act on 3-vector': lambda Z: L(Z).Act(pt), 'Act on 4-vector': lambda Z: L(Z).Act(h),
+                'Adj': lambda Z: raw(L(Z).Adj(A_(xa))), 'AdjT': lambda Z: raw(L(Z).AdjT(A_(xa))),
+                'Retr': lambda Z: L(Z).Retr(A_(xa)).Act(pt), 'Jinvp': lambda Z: raw(L(Z).Jinvp(A_(pa))),
+            }
+            for nm, f in progs.items():
+                env.no_graph_cut(f'{nm}: nothing detached between X and the result', f, X, group=g)
+            env.no_graph_cut('Exp: nothing detached between x and the result', lambda z: A_(z).Exp().Act(pt), xa)
+            env.no_graph_cut('Retr: nothing detached between a and the result', lambda z: L(X).Retr(A_(z)).Act(pt), xa)
+            env.no_graph_cut('Adj: nothing detached between a and the result', lambda z: raw(L(X).Adj(A_(z))), xa)
+            env.no_graph_cut('Act: nothing detached between p and the result', lambda z: L(X).Act(z), pt)
+            env.no_graph_cut('Jinvp: nothing detached between p and the result', lambda q: raw(L(X).Jinvp(A_(q))), pa)
+    mk()
+
+
 @obligation('C04.canary.right_perturbation', functions=[f'{OPS}:SE3_Act.backward'], canary=True)
 def canary(env):
     """a right-perturbation Jacobian must be refuted"""
